@@ -17,7 +17,10 @@
 //!    `g.prf` calls in `instantiate`; the key index of each is checked.  The node just before `r` is
 //!    `x2 = input_node.tuple_get(2)` (:303); its dependency is the shared input tuple, whose value is
 //!    the triple of input shares.  The protocol output is the first CreateTuple after y2 whose
-//!    dependencies are (y0, _, y2) (:445).
+//!    dependencies are (y0, _, y2) (:445).  The protocol's seven messages are the NOP nodes annotated
+//!    Send between `r` and that tuple; their sender/receiver pattern is checked against :342-:428.
+//!    (The output shares do not depend on r0, r_msb0, r_truncated0 — they cancel — so the messages are
+//!    compared too: kind `trunc2k_msgs`.)
 //!  * TruncateMPC (other scales): its only PRF (:105) is the last PRF node of the graph (input sharing
 //!    comes earlier, revealing uses none); the node right after it is `input_node.tuple_get(0)` (:109)
 //!    whose dependency is the shared input tuple; the output is the first CreateTuple after it whose
@@ -33,7 +36,7 @@ use ciphercore_base::errors::Result;
 use ciphercore_base::evaluators::simple_evaluator::SimpleEvaluator;
 use ciphercore_base::evaluators::Evaluator;
 use ciphercore_base::graphs::util::simple_context;
-use ciphercore_base::graphs::{Context, Node, Operation};
+use ciphercore_base::graphs::{Context, Node, NodeAnnotation, Operation};
 use ciphercore_base::inline::inline_ops::{InlineConfig, InlineMode};
 use ciphercore_base::mpc::mpc_compiler::{prepare_for_mpc_evaluation, IOStatus};
 use serde_json::json;
@@ -137,6 +140,7 @@ fn key_index(n: &Node) -> Option<u64> {
 struct Found2K {
     input_tuple: usize,
     masks: [usize; 6], // r, r0, r_msb0, r_truncated0, y0, y2
+    msgs: Vec<usize>,  // the seven Send-annotated NOP nodes of the protocol, in node order
     output: usize,
 }
 fn find_2k(run: &Run) -> std::result::Result<Found2K, String> {
@@ -175,10 +179,28 @@ fn find_2k(run: &Run) -> std::result::Result<Found2K, String> {
             ds.len() == 3 && ds[0].get_id() as usize == y0 && ds[2].get_id() as usize == y2
         }
     });
-    match out {
-        Some(o) => Ok(Found2K { input_tuple: d as usize, masks: [r, later[0], later[1], later[2], later[3], later[4]], output: o }),
-        None => Err("no CreateTuple(y0,_,y2) after y2".into()),
+    let o = match out {
+        Some(o) => o,
+        None => return Err("no CreateTuple(y0,_,y2) after y2".into()),
+    };
+    // messages: the NOP nodes annotated Send between r and the output tuple, with the protocol's
+    // sender/receiver pattern (:342 three times, :367, :369, :424, :428)
+    let mut msgs = vec![];
+    let mut pattern = vec![];
+    for i in r + 1..o {
+        if matches!(n[i].get_operation(), Operation::NOP) {
+            for a in n[i].get_annotations().map_err(|_| "annotations".to_string())? {
+                if let NodeAnnotation::Send(from, to) = a {
+                    msgs.push(i);
+                    pattern.push((from, to));
+                }
+            }
+        }
     }
+    if pattern != vec![(2, 1), (2, 1), (2, 1), (0, 1), (1, 0), (0, 1), (1, 0)] {
+        return Err(format!("Send pattern between r and the output is {:?}", pattern));
+    }
+    Ok(Found2K { input_tuple: d as usize, masks: [r, later[0], later[1], later[2], later[3], later[4]], msgs, output: o })
 }
 
 struct FoundMpc {
@@ -435,6 +457,10 @@ fn run_config(st: ScalarType, shape: &Option<Vec<u64>>, scale: u128, owner: &IOS
                 obs.push(zt(&[ys[0][i], ys[1][i], ys[2][i]]));
             }
             out.case("trunc2k_shares", format!("trunc2k_list {} {} {} [{}]", w, sgc, k, items.join("; ")), format!("[{}]", obs.join("; ")), input_json.clone(), nontrivial);
+            // the seven messages of the protocol (they, unlike the output shares, depend on r0, r_msb0, r_truncated0)
+            let mv: Vec<Vec<u128>> = f.msgs.iter().map(|&i| elems(&run.vals[i], &t).unwrap()).collect();
+            let mobs: Vec<String> = (0..n).map(|i| list_u128(&mv.iter().map(|m| m[i]).collect::<Vec<_>>())).collect();
+            out.case("trunc2k_msgs", format!("trunc2k_msgs_list {} {} {} [{}]", w, sgc, k, items.join("; ")), format!("[{}]", mobs.join("; ")), input_json.clone(), nontrivial);
             // the revealed output is the sum of the protocol's output shares
             let sums: Vec<u128> = (0..n).map(|i| ys[0][i].wrapping_add(ys[1][i]).wrapping_add(ys[2][i]) & mask(w)).collect();
             out.case("reveal", format!("map (reveal {}) [{}]", w, obs.join("; ")), list_u128(&revealed), input_json.clone(), nontrivial);
@@ -627,6 +653,8 @@ pub fn run(tier: &str, seed: u64, out: &mut Out) {
     for &st in INT_ST.iter() {
         let w = width(st);
         for k in ks_for(w, st.is_signed(), thorough) {
+            // coverage of k made visible: every k individually in the quick tier, a count per type otherwise
+            if thorough { out.stat(&format!("k-values-covered:{}", scalar(st))); } else { out.stat(&format!("k:{}:{}", scalar(st), k)); }
             let nconf = if thorough { 3 } else { 2 };
             for _ in 0..nconf {
                 // owners and output sets rotate so that all 4 private owners x 8 output sets are covered
